@@ -253,6 +253,22 @@ func BPre(p, k *Term) *Term {
 	if p.Op == "lit" && p.Str == "" {
 		return True
 	}
+	// syntactic prefix: k = p ++ rest
+	{
+		ps, ks := segsOf(p), segsOf(k)
+		if len(ps) <= len(ks) {
+			same := true
+			for i := range ps {
+				if ps[i] != ks[i] {
+					same = false
+					break
+				}
+			}
+			if same {
+				return True
+			}
+		}
+	}
 	if isBytesConstruct(p) && isBytesConstruct(k) {
 		sp, sk := shapeOf(p), shapeOf(k)
 		if sp.FirstByte >= 0 && sk.FirstByte >= 0 && sp.FirstByte != sk.FirstByte {
